@@ -41,7 +41,7 @@ def opaque(tag, depth):
 
 
 def expr(tag, depth):
-    k = sym.concretize(sym.int(f"{tag}.kind", 0, 6 if depth > 0 else 1))
+    k = sym.concretize(sym.int(f"{tag}.kind", 0, 7 if depth > 0 else 1))
     if k == 0:
         return tys.Bool
     if k == 1:
@@ -54,6 +54,8 @@ def expr(tag, depth):
         return tys.FunctionType([expr(tag + ".i", depth - 1)], [B])
     if k == 5:
         return tys.FunctionType([], [expr(tag + ".o", depth - 1)])
+    if k == 7:   # a sequence argument nested inside a sequence argument
+        return tys.Opaque("Seq2", TypeBound.Any, [tys.SequenceArg([tys.StringArg("s"), tys.SequenceArg([tys.SequenceArg([tys.TypeTypeArg(expr(tag + ".qq", depth - 1))])])])], "seq.ext")
     return tys.Opaque("Seq", TypeBound.Any, [tys.SequenceArg([tys.TypeTypeArg(expr(tag + ".q", depth - 1)), tys.BoundedNatArg(3)])], "seq.ext")
 
 
@@ -174,7 +176,10 @@ def hugr_resolution_touches_only_custom_nodes():
     a = d.add_op(ops.Custom("Op", tys.FunctionType([tys.Bool], [opq]), "x", "my.ext", []), d.inputs()[0])
     b = d.add_op(ops.Custom("Nope", tys.FunctionType([opq], [opq]), "y", "nowhere", []), a[0])
     c = d.add_op(ops.Noop(), b[0])
+    # the same custom operation once more, instantiated differently (other signature and type arguments)
+    a2 = d.add_op(ops.Custom("Op", tys.FunctionType([tys.Bool, tys.Bool], [tys.Bool]), "x2", "my.ext", [tys.BoundedNatArg(6)]), d.inputs()[0], d.inputs()[0])
     d.set_outputs(c[0])
+    sigs_before = {n.idx: (d.hugr[n].op.outer_signature(), list(getattr(d.hugr[n].op, "args", []))) for n in d.hugr if isinstance(d.hugr[n].op, ops.Custom)}
     before = json.loads(d.hugr.to_json())
     ops_before = {n.idx: d.hugr[n].op for n in d.hugr}
     model_before = None
@@ -188,6 +193,12 @@ def hugr_resolution_touches_only_custom_nodes():
             sym.check("custom_node_resolved_iff_held", isinstance(op, ops.ExtOp) == want_ext)
         else:
             sym.check("non_custom_nodes_untouched", op is ops_before[n.idx])
+    for n in h:
+        if n.idx in sigs_before:
+            op2 = h[n].op
+            same = dump(op2.outer_signature()._to_serial_root()) == dump(sigs_before[n.idx][0]._to_serial_root())
+            args2 = op2.args if hasattr(op2, "args") else []
+            sym.check("each_resolved_node_keeps_its_own_signature_and_args", same and [dump(x._to_serial_root()) for x in args2] == [dump(x._to_serial_root()) for x in sigs_before[n.idx][1]])
     after = json.loads(h.to_json())
     for doc in (before, after):
         for nd in doc["nodes"]:
